@@ -199,7 +199,9 @@ class VoronoiFPS(GreedySelector):
             self.full_fraction = lower_fraction
         else:
             if isinstance(self.full_fraction, numbers.Real):
-                if not 0 < self.full_fraction <= 1:
+                # 0 is what the calibration itself stores when the pruned update was
+                # never measured faster, so it must be a valid switching point
+                if not 0 <= self.full_fraction <= 1:
                     raise ValueError(
                         "Switching point should be real and more than 0 and less than "
                         f"1. Received {self.full_fraction}"
